@@ -8,6 +8,7 @@
 
 #include "common/genjson.hpp"
 #include "common/harness.hpp"
+#include "common/mutate.hpp"
 #include "common/models.hpp"
 #include "common/refjson.hpp"
 #include "common/sonic_mv.hpp"
@@ -220,8 +221,27 @@ static void property(Src& s, Case& c) {
   for (size_t i = 0; i < napps; i++) {
     int b2 = bt + 6;
     MV T = derived ? derive(s, i == 0 ? E : Ts.back(), 0, b2) : gen_side(s, 0, b2, true);
+    std::string ttext;
+    if (s.coin(1, 16)) {
+      // a maximally dense array (one byte per scalar, no white space) as the whole text or as the value of a declared key:
+      // the handler's node stack is sized from the text length
+      std::string dt = dense_text(s);
+      refjson::Result rr = refjson::parse(dt);
+      if (!rr.ok) c.fail("ORACLE-SELF-CHECK: dense text rejected by the reference");
+      const MV& cur = i == 0 ? E : Ts.back();
+      if (cur.k == MV::Obj && !cur.o.empty() && s.coin(1, 2)) {
+        MV w = MV::obj();
+        w.o.emplace_back(cur.o[s.index(cur.o.size())].first, rr.value);
+        T = w;
+        ttext = refjson::write(w);
+      } else {
+        T = rr.value;
+        ttext = dt;
+      }
+      c.cls("text:dense");
+    }
     Ts.push_back(T);
-    texts.push_back(render(s, T, lay));
+    texts.push_back(ttext.empty() ? render(s, T, lay) : ttext);
   }
   bool by_parse = s.coin(1, 2);
   int ak = (int)s.weighted({3, 3, 3});
